@@ -230,6 +230,17 @@ func init() {
 		},
 		rt:   func(v *mucJoinW) bool { return v.Since == nil || inRange(*v.Since) },
 		text: func(v *mucJoinW) []string { return []string{v.Password, v.Nick} },
+		// a decoded payload is only a value of the exported API when the options can produce
+		// it again: `since` is a time (the decoder keeps any string), `seconds` a Duration
+		valid: func(v *mucJoinW) bool {
+			if v.SinceStr != nil {
+				t, err := time.Parse(time.RFC3339Nano, *v.SinceStr)
+				if err != nil || !inRange(t) || t.UTC().Format(time.RFC3339Nano) != *v.SinceStr {
+					return false
+				}
+			}
+			return v.Seconds == nil || *v.Seconds <= uint64(1<<62)/uint64(time.Second)
+		},
 	})
 	register(spec[pubRespW]{name: "pubsub.publishResponse",
 		gen:        func(g *gen) pubRespW { return pubRespW{ID: g.text()} },
